@@ -158,6 +158,46 @@ Definition load_g (F : ofiles) : option omen :=
   then Some (mk_omen (f_ngram F) guesser_max_level (f_ip F) (f_cp F) (f_ln F))
   else None.
 
+(* ------------------------------------------------------------------ *)
+(* 5. Line framing and codec: when do the readers get the line lists at all   *)
+
+(* A line is written as  str(level) TAB string LF.  A reader that splits the
+   text at a character of [breaks] inside the string gets a fragment without
+   a TAB (the alphabet never contains TAB), i.e. a line that does not have two
+   fields: both loaders raise.  A TAB inside the string gives three fields:
+   both raise.  So a reader obtains exactly the written line list iff no
+   string contains TAB or one of ITS line-break characters; otherwise it fails.
+     scorer : open(path, 'r')            -> universal newlines: LF, CR ([scorer_breaks]; the
+                                            guesser's set if it ever uses codecs.open)
+     guesser: codecs.open(...) iteration -> str.splitlines (gen/Consts_gen.v:
+                                            guesser_linebreaks, probed from the interpreter) *)
+Definition TABc : N := 9%N.
+Definition scorer_breaks : list N := [10%N; 13%N].
+
+Definition has_any (bad : list N) (s : ostr) : bool :=
+  existsb (fun c => existsb (N.eqb c) bad) s.
+Definition lines_clean (bad : list N) (ls : list (nat * ostr)) : bool :=
+  forallb (fun e => negb (has_any bad (snd e))) ls.
+
+(* the scorer decodes IP.level / CP.level with SOME codec; [decoded_ok] says
+   whether that gives back the text the trainer wrote (true when it opens the
+   files with the ruleset's encoding) *)
+Definition read_s (decoded_ok : bool) (breaks : list N) (F : ofiles) : option scorer :=
+  if decoded_ok && lines_clean (TABc :: breaks) (f_ip F) && lines_clean (TABc :: breaks) (f_cp F)
+  then Some (load_s F) else None.
+
+Definition read_g (breaks : list N) (F : ofiles) : option omen :=
+  if lines_clean (TABc :: breaks) (f_ip F) && lines_clean (TABc :: breaks) (f_ep F) &&
+     lines_clean (TABc :: breaks) (f_cp F)
+  then load_g F else None.
+
+(* no character of the trainer's tables is in [bad] *)
+Definition chars_avoidb (bad : list N) (T : ttab) : bool :=
+  forallb (fun e => negb (has_any bad (te_key e)) && negb (has_any bad (map fst (te_next e)))) (tt_grammar T).
+Definition chars_avoid (bad : list N) (T : ttab) : Prop :=
+  forall e, In e (tt_grammar T) ->
+    (forall c, In c (te_key e) -> ~ In c bad) /\ (forall c l, In (c, l) (te_next e) -> ~ In c bad).
+
 (* the record load_g produces for the directory written from T (when every
    level is within range, see OmenLevelProofs.ol_load_g_write) *)
 Definition gview (T : ttab) : omen :=
